@@ -8,7 +8,7 @@ CONSTANTS
   Atomic = TRUE
   Eager = TRUE
   Emit = TRUE
-  AdvKinds = {"flip", "dup", "drop", "swap", "splice", "replaycp", "delaycps"}
+  AdvKinds = {"flip", "dup", "drop", "swap", "splice", "replaycp", "delaycps", "dropwindow"}
 INVARIANTS SafetyFull EmitInv
 CHECK_DEADLOCK FALSE
 ACTION_CONSTRAINT BroadcastFirst
